@@ -26,7 +26,7 @@ func init() {
 		},
 		Run:            c06Run,
 		Floor:          func(tier string) int { return 1500 },
-		Rule:           "RNN/GRU/LSTM with seq 1..10, batch 1..4, input 1..5, hidden 1..6; every subset of the optional inputs B, initial_h, initial_c, P present / skipped by \"\" / truncated; activation lists (default, gonnx spelling, ONNX spelling, other ONNX activations, unknown names, wrong count), linear_before_reset and input_forget absent/0/1; per-gate distinct biases and asymmetric weights (|w| <= 0.4). Oracles: (1) float64 ONNX recurrence (gate order iofc / zrh, Appendix A.6): output shapes, Y_h == Y[last], RNN/GRU checked step-wise from the observed Y (Y[t] vs cell(X[t], observed Y[t-1])), LSTM whole-sequence within 2e-4; (2) attribute honoured-or-refused: a value equal to the reference without the attribute (when the two differ) is the 'ignored' violation; (3) metamorphic split on the real code: run(X[:s]) then run(X[s:], state) must reproduce run(X) for a random split point. float32 MUST_EQUAL, float64 MAY_REFUSE, ONNX-invalid MUST_ERROR. Non-trivial = a reference with two gates exchanged differs from the true one by more than 10x the tolerance (so gate order and bias slots are identified); distinct = (operator, sizes, optional-input pattern, attributes)." + ruleReused + ruleChained,
+		Rule:           "RNN/GRU/LSTM with seq 1..10, batch 1..4, input 1..5, hidden 1..6; every subset of the optional inputs B, initial_h, initial_c, P present / skipped by \"\" / truncated; attribute combinations (activations together with linear_before_reset / input_forget), activation lists (default, gonnx spelling, ONNX spelling, other ONNX activations, unknown names, wrong count), linear_before_reset and input_forget absent/0/1; per-gate distinct biases and asymmetric weights (|w| <= 0.4). Oracles: (1) float64 ONNX recurrence (gate order iofc / zrh, Appendix A.6): output shapes, Y_h == Y[last], RNN/GRU checked step-wise from the observed Y (Y[t] vs cell(X[t], observed Y[t-1])), LSTM whole-sequence within 2e-4; (2) attribute honoured-or-refused: a value equal to the reference without the attribute (when the two differ) is the 'ignored' violation; (3) metamorphic split on the real code: run(X[:s]) then run(X[s:], state) must reproduce run(X) for a random split point. float32 MUST_EQUAL, float64 MAY_REFUSE, ONNX-invalid MUST_ERROR. Non-trivial = a reference with two gates exchanged differs from the true one by more than 10x the tolerance (so gate order and bias slots are identified); distinct = (operator, sizes, optional-input pattern, attributes)." + ruleReused + ruleChained,
 		RaceInThorough: true,
 		Technique:      "runtime monitoring: differential execution against a float64 reference recurrence (step-wise from the observed trace), discriminative non-triviality, and a metamorphic split relation on the real code",
 		Assumptions:    []string{"ONNX recurrence equations as written in DESIGN.md Appendix A.6", "weights bounded so that rounding differences do not amplify along the sequence"},
@@ -200,6 +200,17 @@ func genRec(r *gen.R, op string, validOnly bool) recCase {
 		c.at.Activations = acts
 		c.req.Attrs = append(c.req.Attrs, mon.AttrStrings("activations", acts))
 		c.attrNote = "activations"
+		if r.Chance(0.4) { // combined with the other behavioural attribute of the operator
+			switch op {
+			case "GRU":
+				c.at.LinearBeforeReset = true
+				c.req.Attrs = append(c.req.Attrs, mon.AttrI("linear_before_reset", 1))
+			case "LSTM":
+				c.at.InputForget = true
+				c.req.Attrs = append(c.req.Attrs, mon.AttrI("input_forget", 1))
+				mayRefuse = "input_forget=1 may be refused"
+			}
+		}
 	case 3: // ONNX spelling / other ONNX activations: honoured or refused
 		pool := []string{"Sigmoid", "Tanh", "Relu", "LeakyRelu", "HardSigmoid", "Elu", "Softsign", "Softplus"}
 		acts := make([]string, nAct)
@@ -239,6 +250,18 @@ func genRec(r *gen.R, op string, validOnly bool) recCase {
 			c.req.Attrs = append(c.req.Attrs, mon.AttrI("input_forget", 1))
 			mayRefuse = "input_forget=1 may be refused"
 			c.attrNote = "input_forget"
+		}
+		if op != "RNN" && r.Chance(0.5) { // combined with a non-default activation list
+			pool := []string{"sigmoid", "tanh", "relu"}
+			acts := make([]string, nAct)
+			for i := range acts {
+				acts[i] = pool[r.Intn(2)]
+				if !validOnly && r.Chance(0.2) {
+					acts[i] = "relu"
+				}
+			}
+			c.at.Activations = acts
+			c.req.Attrs = append(c.req.Attrs, mon.AttrStrings("activations", acts))
 		}
 	case 6: // explicit zero
 		switch op {
